@@ -227,6 +227,7 @@ func c09QFramesPart() explore.Part {
 		var cr explore.CaseResult
 		c09QFLayouts(c, e.Thorough(), func(fr QUICFrames) bool {
 			f, n := c09QFOne(fr, c.L, c.Base, acc)
+			acc.plain++
 			cr.Execs += n
 			cr.Trans += n
 			if f != nil {
